@@ -12,8 +12,8 @@ CONSTANTS
   LossModels = {"process", "power"}
   GcAlwaysSyncs = TRUE
   OpenSizesLast = TRUE
-  PayLens = {2, 9}
-  BatchSizes = {1, 2}
+  PayLens = {9}
+  BatchSizes = {1}
   AllowExplicit = FALSE
   MaxDamage = 0
   DamageKinds = {}
